@@ -2,4 +2,4 @@ From UV Require Import Lib.Base Model.ThreadPool.
 Require Extraction.
 Require Import ExtrOcamlBasic.
 Extraction Language OCaml.
-Extraction "m_c08.ml" N.succ Z.succ init step run_log verdict threshold api_kind is_lookup.
+Extraction "m_c08.ml" N.succ Z.succ init step run_log verdict threshold api_kind is_lookup complete_api fork_child fork_child_fixed.
